@@ -139,6 +139,8 @@ fn parse_strace(text: &str, port: u16) -> (Vec<Conn>, Vec<Sleep>) {
 }
 
 pub struct Case {
+    /// bytes for the file reference run when they differ from the delivered bytes (C13 over TCP: the clean stream)
+    pub reference_bytes: Option<Vec<u8>>,
     /// seconds an accepted connection is kept open (idle) before the phase's fault happens
     pub holds: Vec<f64>,
     pub phases: Vec<Phase>,
@@ -319,7 +321,7 @@ const CONNECT_SLACK: f64 = 25.0;
 pub fn run_case(cli: &str, port: u16, c: &Case, log: &mut Vec<String>) -> Outcome {
     // reference: the same binary on the same bytes from a file
     let src = scratch("c18-file.txt");
-    std::fs::write(&src, file_equivalent(c)).expect("scratch");
+    std::fs::write(&src, c.reference_bytes.clone().unwrap_or_else(|| file_equivalent(c))).expect("scratch");
     let mut fargs: Vec<String> = vec!["-s".into(), src.clone(), "--update=-1".into(), "-d".into(), "600".into()];
     fargs.extend(c.opts.iter().cloned());
     let fr = super::cli::run_cli(cli, &fargs, Duration::from_secs(120), &[]);
@@ -667,7 +669,7 @@ pub fn build_case(r: &mut Rng, letters: &str) -> Case {
     if r.chance(1, 3) {
         opts.push("-R".to_string());
     }
-    Case { holds, phases, healthy, opts }
+    Case { reference_bytes: None, holds, phases, healthy, opts }
 }
 
 fn esc(b: &[u8]) -> String {
@@ -686,6 +688,9 @@ pub fn case_script(port: u16, letters: &str, c: &Case) -> Vec<String> {
         }
     }
     v.push(format!("c18 healthy {}", c.healthy.iter().map(|l| esc(l)).collect::<Vec<_>>().join(",")));
+    if let Some(rb) = &c.reference_bytes {
+        v.push(format!("c18 reference {}", esc(rb)));
+    }
     v
 }
 
@@ -702,7 +707,7 @@ pub fn replay(script: &str) -> (bool, String) {
         Err(_) => return (true, "SQMON_CLI not set\n".into()),
     };
     let mut port = 21999u16;
-    let mut case = Case { holds: vec![], phases: vec![], healthy: vec![], opts: vec![] };
+    let mut case = Case { reference_bytes: None, holds: vec![], phases: vec![], healthy: vec![], opts: vec![] };
     for l in script.lines() {
         let Some(rest) = l.strip_prefix("c18 ") else { continue };
         if let Some(p) = rest.strip_prefix("port ") {
@@ -726,6 +731,8 @@ pub fn replay(script: &str) -> (bool, String) {
             }
         } else if let Some(h) = rest.strip_prefix("healthy ") {
             case.healthy = unlines(h);
+        } else if let Some(h) = rest.strip_prefix("reference ") {
+            case.reference_bytes = Some(unhex(h));
         }
     }
     let mut log = Vec::new();
